@@ -222,6 +222,8 @@ def drive_c18(ctx):
         rec.add('RoundTrip', P, nt=True, **actions.roundtrip(body.ContentBody(bytes(rng.getrandbits(8) for _ in range(8))), ch))
     rec.add('RoundTrip', P, nt=True, **actions.roundtrip(heartbeat.Heartbeat(), 0))
     rec.add('RoundTrip', P, **actions.roundtrip(heartbeat.Heartbeat(), rng.choice([0, 1, 65535])))
+    for _ in range(3 if ctx.quick else 60):
+        content_session(ctx, P)
     # protocol header: each octet 0..255 exhaustively (768), random triples, pairs (thorough)
     triples = []
     for pos in range(3):
@@ -1191,3 +1193,82 @@ def drive_c16(ctx):
             ctx.rec.add('Unmarshal', ['C16'], nt=True, label='after-faults', wf=True, **actions.unmarshal(good))
     scheds = ctx.gen.get('schedules')
     threads.run(ctx, ['C16'], scheds, 6 if ctx.quick else 120)
+
+
+# ---------------------------------------------------------------------------
+# content assembly on several channels (Content.tla), judged under C18
+# ---------------------------------------------------------------------------
+def content_session(ctx, props):
+    from pamqp import body, commands, frame, header, heartbeat
+    rec, rng = ctx.rec, ctx.rng
+    rec.add('CReset', props)
+    frame_max = rng.choice([9, 16, 64, 4096])
+    chans = rng.sample(range(1, 8), rng.randint(1, 3))
+    queues = {}
+    for ch in chans:
+        q = []
+        for _ in range(rng.randint(1, 3)):
+            n = rng.choice([0, 1, frame_max - 8, frame_max - 7, rng.randint(0, 300)])
+            data = bytes(rng.getrandbits(8) for _ in range(n)) if rng.random() < 0.7 else (b'\xce\x08AMQP' * n)[:n]
+            sm = rng.choice([m for m in framegen.METHODS if m[0] in ('Basic.Publish', 'Basic.Return', 'Basic.Deliver', 'Basic.GetOk')])
+            m = framegen.rand_method(rng, sm)
+            rec.add('CPublish', props, ch=ch, method=sm[0], body=list(data))
+            while True:             # (random tables may hold integers the encoder refuses: draw again)
+                try:
+                    fm = frame.marshal(m, ch)
+                    fh = frame.marshal(header.ContentHeader(0, len(data), framegen.rand_header(rng).properties), ch)
+                    break
+                except Exception:  # noqa
+                    m = framegen.rand_method(rng, sm)
+            q.append(fm)
+            q.append(fh)
+            step = max(1, frame_max - 8)
+            for i in range(0, len(data), step):
+                q.append(frame.marshal(body.ContentBody(data[i:i + step]), ch))
+        queues[ch] = q
+    wire = b''
+    while any(queues.values()):
+        if rng.random() < 0.15:
+            wire += frame.marshal(heartbeat.Heartbeat(), 0)
+        ch = rng.choice([c for c in chans if queues[c]])
+        wire += queues[ch].pop(0)
+    # receiver: chunked delivery, greedy decode, one assembler per channel reading only public attributes
+    buf = b''
+    asm = {}
+    pos = 0
+    while pos < len(wire) or buf:
+        k = rng.randint(1, 40)
+        buf += wire[pos:pos + k]
+        pos += k
+        while True:
+            out, f = actions.do_unmarshal(buf)
+            if f is None:
+                break
+            n, ch = out['n'], out['ch']
+            buf = buf[n:]
+            done, msg = False, {'method': '', 'size': 0, 'body': []}
+            if isinstance(f, header.ContentHeader):
+                st_ = asm.get(ch)
+                if st_ is not None:
+                    st_['size'] = f.body_size
+                    st_['left'] = f.body_size
+                    done = f.body_size == 0
+            elif isinstance(f, body.ContentBody):
+                st_ = asm.get(ch)
+                if st_ is not None:
+                    st_['acc'] += f.value
+                    st_['left'] -= len(f)
+                    done = st_['left'] == 0
+            elif isinstance(f, heartbeat.Heartbeat):
+                pass
+            else:
+                asm[ch] = {'method': f.name, 'size': 0, 'left': 0, 'acc': b''}
+            if done:
+                st_ = asm.pop(ch)
+                msg = {'method': st_['method'], 'size': st_['size'], 'body': list(st_['acc'])}
+            rec.add('CFrame', props, nt=True, ch=ch, f=actions.a_frame(f), done=bool(done), msg=msg)
+        if pos >= len(wire) and not buf:
+            break
+        if pos >= len(wire):
+            break
+    rec.add('CQuiesce', props, nt=True)
